@@ -18,7 +18,8 @@ Environment steps (`Op`): the network delivers the pending RPC, drops it, loses 
 RPC issued before (duplicate after a retry or a leader change); the client gives up and is
 restarted with the same versions (client retry); a resolver (any other client that ran into a
 lock) calls `CheckTxnStatus` on the primary with any current ts and `ResolveLock` on any of the
-transaction's keys with what it learned.
+transaction's keys with what it learned; any other transaction (another start ts) may prewrite
+any of the keys at any point (`foreign`) and be rolled back on it (`foreignAbort`).
 -/
 import NoKVModel.Client.Perc
 
@@ -108,6 +109,8 @@ inductive Op where
   | restart
   | check (cur : Nat)
   | resolve (ks : List Nat)
+  | foreign (k fts ttl v : Nat)
+  | foreignAbort (k fts : Nat)
   deriving DecidableEq, Repr
 
 def execRpc (c : ClientCfg) (t : Txn) (rpc : Rpc) (s : Store) : Store × Bool :=
@@ -119,6 +122,21 @@ def execRpc (c : ClientCfg) (t : Txn) (rpc : Rpc) (s : Store) : Store × Bool :=
     client that ignores the error of the first commit RPC) -/
 def proceeds (c : ClientCfg) (t : Txn) (pc : Nat) (ok : Bool) : Bool :=
   ok || (!c.primaryCommitErrStops && decide (pc = t.ip))
+
+/-- another transaction (start ts `fts` ≠ ours) prewrites a put on one of our keys -/
+def foreignPrewrite (t : Txn) (s : Store) (k fts ttl v : Nat) : Store :=
+  if fts = t.start then s
+  else if t.muts.any (fun m => m.key = k) then
+    (if (prewriteKey fts ttl ⟨k, .put, v⟩ (s k)).2 = .ok then s.set k (prewriteKey fts ttl ⟨k, .put, v⟩ (s k)).1 else s)
+  else s
+
+/-- that other transaction is rolled back on the key (`BatchRollback`); timestamps are unique, so
+    `fts` is neither our start ts nor our commit version -/
+def foreignAbort (t : Txn) (s : Store) (k fts : Nat) : Store :=
+  if fts = t.start then s
+  else if fts = t.cv then s
+  else if t.muts.any (fun m => m.key = k) then s.set k (rollbackKey (s k) fts)
+  else s
 
 def step (c : ClientCfg) (t : Txn) (y : Sys) (op : Op) : Sys :=
   match op with
@@ -164,6 +182,8 @@ def step (c : ClientCfg) (t : Txn) (y : Sys) (op : Op) : Sys :=
       if cv = 0 then y else { y with store := (resolveLock t.start cv (t.ownKeys ks) y.store).1 }
     | some .rolledBack => { y with store := (resolveLock t.start 0 (t.ownKeys ks) y.store).1 }
     | _ => y
+  | .foreign k fts ttl v => { y with store := foreignPrewrite t y.store k fts ttl v }
+  | .foreignAbort k fts => { y with store := foreignAbort t y.store k fts }
 
 def run (c : ClientCfg) (t : Txn) (y : Sys) (ops : List Op) : Sys := ops.foldl (step c t) y
 
